@@ -4,7 +4,7 @@ export GOFLAGS=-mod=mod GOPROXY=off GOSUMDB=off GOTOOLCHAIN=local
 cd /verif
 rm -rf pbt/props/testdata /tmp/vdev; mkdir -p /tmp/vdev
 SEED=${3:-0}
-VERIF_REPLAY_DIR=/tmp/vdev VERIF_SHARD=dev go test -tags verif ./pbt/props -run "^$1\$" -rapid.checks=$2 -rapid.seed=$SEED -count=1 ${4} 2>&1 | grep -v "rapid\] draw" | head -${LINES_MAX:-25}
+VERIF_REPLAY_DIR=/tmp/vdev VERIF_SHARD=dev go test -tags verif ./pbt/props -run "^$1\$" -rapid.checks=$2 -rapid.seed=$SEED -count=1 -timeout ${TMO:-120s} ${4} 2>&1 | grep -v "rapid\] draw" | head -${LINES_MAX:-25}
 f=$(ls -t /tmp/vdev/*.json 2>/dev/null | head -1)
 [ -n "$f" ] && python3 - "$f" <<'PY'
 import json,sys
